@@ -6,6 +6,8 @@ reallocates across the initial 512 bytes); recorded traces validated by TLC."""
 import json, os
 import vlib
 
+HEAP = {"JAVA_TOOL_OPTIONS": "-Xmx6g"}     # many JVMs run side by side; the default cap is 1/4 of the RAM each
+
 LEVEL = "model_checking"
 
 MANIFEST = dict(
@@ -38,7 +40,7 @@ def _validate(ck, sw, name, beh, label):
     trace = os.path.join(ck.work, "trace_%s.ndjson" % name)
     summ, _ = vlib.run_replay(["bytebuf", "-in", beh, "-out", trace])
     bads, r = vlib.validate_trace(sw, "ByteBufferMonTrace", "ByteBufferMonTrace.cfg", trace,
-                                  parallel=ck.par)
+                                  parallel=ck.par, extra_env=HEAP)
     ck.cov["evaluations"] += summ["scenarios"]
     ck.cov["distinct_nontrivial"] += summ["nontrivial"]
     ck.cov["traces_validated_against_impl"] += summ["scenarios"] - len({b[0] for b in bads})
@@ -82,7 +84,7 @@ def run(ck):
         c = consts(scale, maxw)
         cfg = vlib.cfg_with(sw, "ByteBufferImpl_strict.cfg", c)
         # -coverage slows TLC several times: it is used on a small bound only (vacuity control)
-        r = vlib.tlc(sw, "ByteBufferImpl", cfg, workers=4, timeout=2400, extra=(["-coverage", "1"] if coverage else []))
+        r = vlib.tlc(sw, "ByteBufferImpl", cfg, env=HEAP, workers=4, timeout=2400, extra=(["-coverage", "1"] if coverage else []))
         ck.add_tlc("ByteBufferImpl exhaustive (invariants incl. monitor clean but for the known finding)"
                    + (", with coverage" if coverage else ""), r, c)
         if coverage:
@@ -98,7 +100,7 @@ def run(ck):
     def cover(scale, maxw, arb=True):
         c = consts(scale, maxw, arb=arb)
         cfg = vlib.cfg_with(sw, "ByteBufferImpl_mc.cfg", c)
-        r = vlib.tlc(sw, "ByteBufferImpl", cfg, workers=4, timeout=1500)
+        r = vlib.tlc(sw, "ByteBufferImpl", cfg, env=HEAP, workers=4, timeout=1500)
         if not r.ok:
             raise vlib.Inconclusive("ByteBufferImpl cover %s: %s\n%s" % (scale, r.violated or r.error, r.tail()))
         ck.add_tlc("ByteBufferImpl transition cover", r, c)
@@ -116,7 +118,7 @@ def run(ck):
         c = consts(scale, maxw, maxhist=hist)
         cfg = vlib.cfg_with(sw, "ByteBufferImpl_sim.cfg", c)
         nw = 1 if quick else 4      # one weighted random action per step (SimStep); the seed fixes the histories per worker count
-        r = vlib.tlc(sw, "ByteBufferImpl", cfg, workers=nw, simulate=num, depth=hist + 2,
+        r = vlib.tlc(sw, "ByteBufferImpl", cfg, env=HEAP, workers=nw, simulate=num, depth=hist + 2,
                      seed=ck.seed * 1000 + k, timeout=1800)
         if r.violated or r.error:
             raise vlib.Inconclusive("ByteBufferImpl simulation %s: %s\n%s" % (scale, r.violated or r.error, r.tail()))
